@@ -1,11 +1,27 @@
 #!/usr/bin/env python3
 """Run every hand-written mutant (mutants/<ID>/*.diff, mutants/<ID>/after-fixes/*.diff) and every kept seeded change
 (seeded/<id>/patch.diff) against the quick check of its property in a scratch worktree of /repo HEAD.
-Writes sensitivity/results.json (committed) -- usage: tools/sensitivity.py [ID ...]"""
+Writes sensitivity/results.json (committed) -- usage: tools/sensitivity.py [--part NAME] [ID ...]   (parallel runs write sensitivity/part-NAME.json)
+       tools/sensitivity.py --merge"""
 import glob, json, os, shutil, subprocess, sys, tempfile, time
 V = os.path.dirname(os.path.dirname(os.path.abspath(__file__)))
-only = set(a.upper() for a in sys.argv[1:])
+args = sys.argv[1:]
 out_path = os.path.join(V, 'sensitivity', 'results.json')
+if args and args[0] == '--merge':
+    # merge the part files written by parallel runs (--part NAME) into results.json, dropping entries whose patch
+    # file no longer exists
+    results = json.load(open(out_path)) if os.path.exists(out_path) else {}
+    for part in sorted(glob.glob(os.path.join(V, 'sensitivity', 'part-*.json'))):
+        results.update(json.load(open(part)))
+        os.remove(part)
+    results = {k: v for k, v in results.items() if os.path.exists(os.path.join(V, k))}
+    json.dump(results, open(out_path, 'w'), indent=1, sort_keys=True)
+    print(len(results), 'entries;', sum(1 for v in results.values() if v.get('status') != 'caught'), 'not caught')
+    sys.exit(0)
+if args and args[0] == '--part':
+    out_path = os.path.join(V, 'sensitivity', 'part-%s.json' % args[1])
+    args = args[2:]
+only = set(a.upper() for a in args)
 os.makedirs(os.path.dirname(out_path), exist_ok=True)
 results = json.load(open(out_path)) if os.path.exists(out_path) else {}
 head = subprocess.run(['git', '-C', '/repo', 'rev-parse', '--short', 'HEAD'], capture_output=True, text=True).stdout.strip()
